@@ -25,6 +25,7 @@ def run_active(pid, prefix, rule, assumptions, floor):
         'syns_delivered_together_with_following_symbols': int(tot.get('syn_glued_with_following_symbols', 0)),
         'command_echo_delivered_together_with_the_reaction': int(tot.get('echo_glued_with_reaction', 0)),
         'stray_symbols_right_behind_the_own_address': int(tot.get('stray_symbol_behind_own_address', 0)),
+        'arbitration_writes_swallowed_without_echo': int(tot.get('swallowed_arbitration_writes', 0)),
         'alarms_of_other_properties_ignored_here': int(tot.get('other_property_alarms', 0)),
         'samples': tot.get('samples', []),
     })
